@@ -3,5 +3,5 @@
 
 def run(rep, repo, tier):
     import c14_life
-    rep.explanation = c14_life.EXPLANATION
+    rep.explanation = 'Lifetime rules only (developer driver).'
     c14_life.run_life(rep, repo, tier)
